@@ -98,3 +98,47 @@ Theorem C18_ms_space_exact : forall n cs q,
   sat_sys (ms_space n cs) q <->
   exists q', (forall i, (i <= n)%nat -> q' i == q i) /\ sat_cons (ms_mip n cs) q'.
 Proof. exact ms_space_exact. Qed.
+
+(* ---- completeness on closed relations (affine Farkas lemma derived from the exact elimination of Base/FM.v) ---- *)
+Require Import PPLV.Term.Farkas PPLV.Term.Complete.
+
+Theorem C18_farkas_affine : forall n cs c,
+  dim_ok n cs -> (length (coefs c) <= n)%nat -> nonstrict cs -> strict c = false ->
+  (exists p, sat_all cs p) -> (forall p, sat_all cs p -> sat c p) -> Cone cs (eval c).
+Proof. exact farkas_affine. Qed.
+
+Theorem C18_farkas_multipliers : forall cs f, Cone cs f ->
+  exists w k, (forall i, 0 <= w i) /\ 0 <= k /\ forall p, f p == csum cs w 0 p + k.
+Proof. exact Cone_mult. Qed.
+
+(* every ranking function of a non-empty closed relation is in the projection of the MS system *)
+Theorem C18_ms_complete : forall n cs q,
+  all_ge cs -> dimc (n + n) cs -> (exists p, sat_cons cs p) -> ranking n q (sat_cons cs) ->
+  exists q', (forall i, (i <= n)%nat -> q' i == q i) /\ sat_cons (ms_mip n cs) q'.
+Proof. exact ms_complete. Qed.
+
+Theorem C18_pr_original_complete : forall n cs q,
+  all_ge cs -> dimc (n + n) cs -> (exists p, sat_cons cs p) -> ranking n q (sat_cons cs) ->
+  exists l, sat_cons (pro_mip n cs) l /\ forall j, (j < n)%nat -> pr_mu cs (length cs) l j == q j.
+Proof. exact pro_complete. Qed.
+
+(* the tests answer true exactly when an affine ranking function exists ... *)
+Theorem C18_ms_test_true_iff_exists_ranking : forall n cs,
+  all_ge cs -> dimc (n + n) cs ->
+  ((exists q, sat_cons (ms_mip n cs) q) <-> (exists q, ranking n q (sat_cons cs))).
+Proof. exact ms_test_iff. Qed.
+
+Theorem C18_pr_original_test_true_iff_exists_ranking : forall n cs,
+  all_ge cs -> dimc (n + n) cs ->
+  ((exists l, sat_cons (pro_mip n cs) l) <-> (exists q, ranking n q (sat_cons cs))).
+Proof. exact pro_test_iff. Qed.
+
+(* ... hence MS and PR (single-pointset form) agree on every closed relation *)
+Theorem C18_ms_pr_agree : forall n cs,
+  all_ge cs -> dimc (n + n) cs ->
+  ((exists q, sat_cons (ms_mip n cs) q) <-> (exists l, sat_cons (pro_mip n cs) l)).
+Proof. exact ms_pr_agree. Qed.
+
+(* the two-system PR form does NOT always agree (guard only in cs_after): finding C18-pr2-guard *)
+Theorem C18_ms_pr2_agree_refuted : ~ ms_pr2_agree_full.
+Proof. exact ms_pr2_agree_refuted. Qed.
